@@ -131,6 +131,7 @@ type Line struct {
 	Dev     map[string]ADev              `json:"dev"`
 	Q       map[string][]string          `json:"q"`
 	Paused  map[string]Gate              `json:"paused"`
+	Busy    []string                     `json:"busy"` // controller actors with a reconcile in flight (fine mode)
 	H       map[string]AHandler          `json:"h"`
 	DevLog  []ADevReq                    `json:"devlog"`
 	Merges  []MergeRec                   `json:"merges"`
@@ -320,6 +321,7 @@ func (w *World) snapshot(l *Line) error {
 	l.Dev = map[string]ADev{}
 	l.Q = map[string][]string{}
 	l.Paused = map[string]Gate{}
+	l.Busy = []string{}
 	l.H = map[string]AHandler{}
 	l.Up = w.proc != nil
 
@@ -379,8 +381,10 @@ func (w *World) snapshot(l *Line) error {
 		for n, a := range w.proc.actors {
 			if g := a.pausedGate(); g != nil {
 				l.Paused[n] = *g
+				l.Busy = append(l.Busy, n)
 			}
 		}
+		sort.Strings(l.Busy)
 	} else {
 		for _, cn := range []string{"tx", "prop", "cfg", "mast", "conn"} {
 			l.Q[cn] = []string{}
